@@ -233,6 +233,10 @@ func (b *builder) buildRule(ev *Event, ruleID string, depth int) *ProofNode {
 	for i, p := range ev.Rule.Premises {
 		switch term := p.(type) {
 		case ast.Atom:
+			if term.Predicate.IsBuiltin() {
+				// Satisfied by construction (the rule fired). No sub-proof.
+				continue
+			}
 			fact := ev.PremiseFacts[i]
 			if fact.Predicate.Symbol == "" {
 				// Missing in store — something derived via an unsupported
